@@ -275,9 +275,55 @@ func c11Bounds(t *decl.Type) []*big.Int {
 
 func init() {
 	body := func(c *explore.Ctx) {
-		part := c.Choose(7)
-		c11IgnoreUnknown = part != 0 && part != 2 && part != 5 && part != 6 && c.Bool()
+		part := c.Choose(8)
+		c11IgnoreUnknown = part != 0 && part != 2 && part != 5 && part != 6 && part != 7 && c.Bool()
 		switch part {
+		case 7: // a callback option with choices: the choices restrict what the callback is given
+			text := []string{"cb1", "cb2", "cb", "cb1x", "CB1", "", "zzz"}[c.Choose(7)]
+			form := c.Choose(2)
+			var o struct {
+				Val func(string) `long:"val" short:"V" choice:"cb1" choice:"cb2"`
+			}
+			var got []string
+			o.Val = func(s string) { got = append(got, s) }
+			p := flags.NewParser(&o, flags.None)
+			argv := []string{"--val=" + text}
+			if form == 1 {
+				argv = []string{"-V", text}
+				if text == "" {
+					c.Skip()
+				}
+			}
+			c.Describe(func() interface{} {
+				return map[string]interface{}{"part": "callback-with-choices", "argv": argv}
+			})
+			var err error
+			func() {
+				defer func() {
+					if r := recover(); r != nil {
+						c.Fail("panic|"+explore.PanicSite(), fmt.Sprint(r))
+					}
+				}()
+				_, err = p.ParseArgs(argv)
+			}()
+			if c.Failed() {
+				return
+			}
+			member := text == "cb1" || text == "cb2"
+			c.Outcome("callback-with-choices", text, errType(err), fmt.Sprint(got))
+			if member {
+				c.Hit("must-accept")
+				if err != nil || len(got) != 1 || got[0] != text {
+					c.Fail("valid-value-rejected|func(string)|choices", map[string]interface{}{"error": fmt.Sprint(err), "calls": got})
+				}
+			} else {
+				c.Hit("not-a-choice")
+				if fe, ok := err.(*flags.Error); !ok || fe.Type != flags.ErrInvalidChoice {
+					c.Fail("value-outside-choices-accepted|func(string)", map[string]interface{}{"error": fmt.Sprint(err), "calls": got})
+				} else if len(got) != 0 {
+					c.Fail("callback-called-with-a-value-outside-its-choices", got)
+				}
+			}
 		case 6: // an INI value is everything after the '=' (trimmed): what looks like a trailing comment belongs to it
 			t := []*decl.Type{decl.TUint16, decl.TString, decl.TInt}[c.Choose(3)]
 			text := []string{"80 #1", "80 ;1", "a #b", "a ; b", "80#1", "8;0", "80 # 8080"}[c.Choose(7)]
@@ -446,7 +492,7 @@ func init() {
 		Rule: "(i) every value of int8/uint8/int16/uint16 plus two out-of-range neighbours on each side, rendered in every base 2..36 in both letter cases; " +
 			"(ii) min-1,min,min+1,-1,0,1,max-1,max,max+1,2^64,2^128,-2^63,-2^63-1 for int/int16/int32/int64/uint/uint16/uint32/uint64 in bases 10,2,8,16,36, with and without a leading zero, through 6 paths (--val=V, --val V, default tag, environment, positional, INI entry); " +
 			"(iii) every string of length <= 4 over {0 1 9 a f z - + . e x _ space I n :} for 13 types x bases 10,2,16,36 (thorough: also via default tag and positional); (iv) 56 float rounding/limit/spelling witnesses x sign x float32/float64 x 6 paths; " +
-			"(v) choice sets (incl. a member containing a comma and a set of seven; also: the help text rendered first; also: a different set first, one use, then the set edited through Option.Choices) x near-miss values (prefix, suffix, case, padding, leading zero/plus) x 4 paths; (vi) lists in an environment variable split on env-delim {',', ';;'} for []int, []string, map[string]int, []uint8: 8 piece patterns with empty, blank-padded and unconvertible pieces (every piece is a value of the element type: an empty piece is an element of a []string and a fault for a number); (vii) INI values that look as if they ended in a comment (80 #1, a ; b ...) for uint16, int, string; (ii), (iv) and (v) also with IgnoreUnknown set on the parser; oracle: own digit parser + math/big (integers), big.Rat nearest-even (floats), three classes must-accept / must-reject / grey; " +
+			"(v) choice sets (incl. a member containing a comma and a set of seven; also: the help text rendered first; also: a different set first, one use, then the set edited through Option.Choices) x near-miss values (prefix, suffix, case, padding, leading zero/plus) x 4 paths; (vi) lists in an environment variable split on env-delim {',', ';;'} for []int, []string, map[string]int, []uint8: 8 piece patterns with empty, blank-padded and unconvertible pieces (every piece is a value of the element type: an empty piece is an element of a []string and a fault for a number); (viii) a func(string) option with choices x 7 values x 2 spellings (the callback runs only for members); (vii) INI values that look as if they ended in a comment (80 #1, a ; b ...) for uint16, int, string; (ii), (iv) and (v) also with IgnoreUnknown set on the parser; oracle: own digit parser + math/big (integers), big.Rat nearest-even (floats), three classes must-accept / must-reject / grey; " +
 			"distinct = distinct (type, base, class, accepted?, stored value)",
 		Assumptions:  []string{"duration syntax is Go's time.ParseDuration (trusted)", "bool spellings other than true/false, a leading '+', inf/nan/hex-float/underscore spellings are grey: acceptance not asserted, exactness is"},
 		RequiredHits: []string{"must-accept", "must-reject", "grey", "not-a-choice"},
